@@ -61,6 +61,7 @@ func checkC13(c *Check) {
 	// ---- R1
 	// with discovery the authorization endpoint is the one published by this filter's own discovery document
 	discoveryCacheKeyRule(c, "C13.R1")
+	discoveryWheneverConfigured(c, "C13.R1")
 	loc := resolveCell(stripConv(m.RedirLocation))
 	sc, _, isStr := asCall(loc)
 	okStr := isStr && isCallTo(sc, "net/url.URL.String")
